@@ -22,6 +22,7 @@ pub struct Hist {
     pub dir: PathBuf,
     repo: Option<OcflRepo>,
     ext_staging: bool,
+    client: usize,
 }
 
 fn errkind(e: &RocflError) -> String {
@@ -83,14 +84,14 @@ fn vd_json(v: &rocfl::ocfl::VersionDetails) -> Value {
 
 impl Hist {
     pub fn new(base: PathBuf) -> Self {
-        Hist { dir: base.join("r0"), base, n: 0, repo: None, ext_staging: false }
+        Hist { dir: base.join("r0"), base, n: 0, repo: None, ext_staging: false, client: 0 }
     }
 
     fn root(&self) -> PathBuf {
         self.dir.join("root")
     }
     fn staging(&self) -> PathBuf {
-        self.dir.join("staging")
+        self.dir.join(format!("staging{}", if self.client == 0 { String::new() } else { self.client.to_string() }))
     }
     fn src(&self) -> PathBuf {
         self.dir.join("src")
@@ -133,6 +134,7 @@ impl Hist {
                 self.repo = None;
                 let _ = fs::remove_dir_all(&self.dir);
                 self.n += 1;
+                self.client = 0;
                 self.dir = self.base.join(format!("r{}", self.n));
                 fs::create_dir_all(self.src())?;
                 Ok("ok".into())
@@ -156,6 +158,13 @@ impl Hist {
                 Ok("ok".into())
             }
             "open" => {
+                self.open()?;
+                Ok("ok".into())
+            }
+            // client <k>: a second rocfl user with its own (external) staging root on the same storage root
+            "client" => {
+                self.client = a[0].parse().unwrap();
+                self.ext_staging = true;
                 self.open()?;
                 Ok("ok".into())
             }
